@@ -1,2 +1,385 @@
-//! C14 workload (under construction).
-fn main() {}
+//! C14 — limb-slice division kernels of `ruint::algorithms::div` vs BigUint,
+//! each inside its documented (and debug-asserted) preconditions.
+
+use num_bigint::BigUint;
+use num_traits::{One, ToPrimitive, Zero};
+use ruint::algorithms::div as d;
+use vmon::{au, big, divgen, gen, rng::Rng, Arg, Mon};
+
+pub fn dispatch(m: &mut Mon, _bits: usize, op: &str, a: &[Arg]) {
+    exec(m, op, a)
+}
+
+fn u128_of(a: &Arg) -> u128 {
+    a.n()
+}
+
+fn exec(m: &mut Mon, op: &str, a: &[Arg]) {
+    match op {
+        // quotient left in numerator, remainder in divisor, any lengths / padding
+        "div" => {
+            let (n0, d0) = (a[0].u().to_vec(), a[1].u().to_vec());
+            let (bn, bd) = (big::big(&n0), big::big(&d0));
+            if bd.is_zero() {
+                m.nontrivial(false);
+                let (mut n, mut dv) = (n0.clone(), d0.clone());
+                m.must_panic(|| d::div(&mut n, &mut dv), "zero divisor");
+                return;
+            }
+            let (q, r) = (&bn / &bd, &bn % &bd);
+            m.nontrivial(n0.len() >= 2 || d0.len() >= 2);
+            let (mut n, mut dv) = (n0.clone(), d0.clone());
+            if m.must(|| d::div(&mut n, &mut dv)).is_some() {
+                m.obs(|| format!("q={} r={}", big::hex(&n), big::hex(&dv)));
+                // the quotient always fits the numerator slice, the remainder the divisor slice
+                m.eq("div.quotient", &n, &big::limbs(&q, n0.len()));
+                m.eq("div.remainder", &dv, &big::limbs(&r, d0.len()));
+            }
+        }
+        // numerator >= divisor >= 3 limbs, divisor top limb non-zero
+        "div_nxm" => {
+            let (n0, d0) = (a[0].u().to_vec(), a[1].u().to_vec());
+            let (bn, bd) = (big::big(&n0), big::big(&d0));
+            let (q, r) = (&bn / &bd, &bn % &bd);
+            let (mut n, mut dv) = (n0.clone(), d0.clone());
+            if m.must(|| d::div_nxm(&mut n, &mut dv)).is_some() {
+                m.eq("div_nxm.quotient", &n, &big::limbs(&q, n0.len()));
+                m.eq("div_nxm.remainder", &dv, &big::limbs(&r, d0.len()));
+            }
+        }
+        // divisor normalised, >= 2 limbs; numerator's top dl limbs < divisor so
+        // that the quotient fits the nl - dl limbs left for it; remainder is
+        // left in numerator[..dl], quotient in numerator[dl..].
+        "div_nxm_normalized" => {
+            let (n0, d0) = (a[0].u().to_vec(), a[1].u().to_vec());
+            let (bn, bd) = (big::big(&n0), big::big(&d0));
+            let (q, r) = (&bn / &bd, &bn % &bd);
+            let dl = d0.len();
+            let mut n = n0.clone();
+            if m.must(|| d::div_nxm_normalized(&mut n, &d0)).is_some() {
+                let (rem, quo) = n.split_at(dl);
+                m.eq("div_nxm_normalized.quotient", &quo.to_vec(), &big::limbs(&q, n0.len() - dl));
+                m.eq("div_nxm_normalized.remainder", &rem.to_vec(), &big::limbs(&r, dl));
+            }
+        }
+        "div_nx1" | "div_nx1_normalized" => {
+            let n0 = a[0].u().to_vec();
+            let dv = u128_of(&a[1]) as u64;
+            let (bn, bd) = (big::big(&n0), BigUint::from(dv));
+            let (q, r) = (&bn / &bd, &bn % &bd);
+            let mut n = n0.clone();
+            let norm = op == "div_nx1_normalized";
+            if let Some(rem) = m.must(|| if norm { d::div_nx1_normalized(&mut n, dv) } else { d::div_nx1(&mut n, dv) }) {
+                m.eq("quotient", &n, &big::limbs(&q, n0.len()));
+                m.eq("remainder", &rem, &r.to_u64().unwrap());
+            }
+        }
+        "div_nx2" | "div_nx2_normalized" => {
+            let n0 = a[0].u().to_vec();
+            let dv = u128_of(&a[1]);
+            let (bn, bd) = (big::big(&n0), BigUint::from(dv));
+            let (q, r) = (&bn / &bd, &bn % &bd);
+            let mut n = n0.clone();
+            let norm = op == "div_nx2_normalized";
+            if let Some(rem) = m.must(|| if norm { d::div_nx2_normalized(&mut n, dv) } else { d::div_nx2(&mut n, dv) }) {
+                m.eq("quotient", &n, &big::limbs(&q, n0.len()));
+                m.eq("remainder", &rem, &r.to_u128().unwrap());
+            }
+        }
+        // u < d * 2^64, d >= 2^63
+        "div_2x1" => {
+            let u = u128_of(&a[0]);
+            let dv = u128_of(&a[1]) as u64;
+            let e = ((u / u128::from(dv)) as u64, (u % u128::from(dv)) as u64);
+            if let Some(v) = m.must_in("reciprocal", || d::reciprocal(dv)) {
+                if let Some(r) = m.must_in("div_2x1", || d::div_2x1(u, dv, v)) {
+                    m.eq("div_2x1", &r, &e);
+                }
+                if let Some(r) = m.must_in("div_2x1_mg10", || d::div_2x1_mg10(u, dv, v)) {
+                    m.eq("div_2x1_mg10", &r, &e);
+                }
+            }
+            if let Some(r) = m.must_in("div_2x1_ref", || d::div_2x1_ref(u, dv)) {
+                m.eq("div_2x1_ref", &r, &e);
+            }
+        }
+        // u21 < d, d >= 2^127
+        "div_3x2" => {
+            let u21 = u128_of(&a[0]);
+            let u0 = u128_of(&a[1]) as u64;
+            let dv = u128_of(&a[2]);
+            let n: BigUint = (BigUint::from(u21) << 64usize) + BigUint::from(u0);
+            let bd = BigUint::from(dv);
+            let e = ((&n / &bd).to_u64().unwrap(), (&n % &bd).to_u128().unwrap());
+            if let Some(v) = m.must_in("reciprocal_2", || d::reciprocal_2(dv)) {
+                if let Some(r) = m.must_in("div_3x2", || d::div_3x2(u21, u0, dv, v)) {
+                    m.eq("div_3x2", &r, &e);
+                }
+                if let Some(r) = m.must_in("div_3x2_mg10", || d::div_3x2_mg10(u21, u0, dv, v)) {
+                    m.eq("div_3x2_mg10", &r, &e);
+                }
+            }
+            // div_3x2_ref is documented in its own source as "off by one"; it has
+            // no contract to check. Its behaviour is only counted.
+            if let Ok(q) = m.call(|| d::div_3x2_ref(u21, u0, dv)) {
+                if q != e.0 {
+                    m.note_add("div_3x2_ref_differs_from_true_quotient", 1);
+                }
+            } else {
+                m.note_add("div_3x2_ref_panicked", 1);
+            }
+        }
+        // d >= 2^63
+        "reciprocal" => {
+            let dv = u128_of(&a[0]) as u64;
+            let e = (u128::MAX / u128::from(dv) - (1u128 << 64)) as u64;
+            m.obs(|| format!("reciprocal={e:#x}"));
+            if let Some(v) = m.must_in("reciprocal", || d::reciprocal(dv)) {
+                m.eq("reciprocal", &v, &e);
+            }
+            if let Some(v) = m.must_in("reciprocal_mg10", || d::reciprocal_mg10(dv)) {
+                m.eq("reciprocal_mg10", &v, &e);
+            }
+            if let Some(v) = m.must_in("reciprocal_ref", || d::reciprocal_ref(dv)) {
+                m.eq("reciprocal_ref", &v, &e);
+            }
+        }
+        // d >= 2^127
+        "reciprocal_2" => {
+            let dv = u128_of(&a[0]);
+            let e = ((big::p2(192) - 1u32) / BigUint::from(dv) - big::p2(64)).to_u64().expect("harness: reciprocal_2 oracle");
+            m.obs(|| format!("reciprocal_2={e:#x}"));
+            if let Some(v) = m.must_in("reciprocal_2", || d::reciprocal_2(dv)) {
+                m.eq("reciprocal_2", &v, &e);
+            }
+            if let Some(v) = m.must_in("reciprocal_2_mg10", || d::reciprocal_2_mg10(dv)) {
+                m.eq("reciprocal_2_mg10", &v, &e);
+            }
+        }
+        _ => panic!("harness: unknown op {op}"),
+    }
+}
+
+fn pad(mut v: Vec<u64>, len: usize) -> Vec<u64> {
+    v.resize(len.max(v.len()), 0);
+    v
+}
+
+fn trimmed(v: &BigUint) -> Vec<u64> {
+    v.to_u64_digits()
+}
+
+fn alpha_u128(r: &mut Rng) -> u128 {
+    (u128::from(gen::alpha_limb(r)) << 64) | u128::from(gen::alpha_limb(r))
+}
+
+fn norm64(r: &mut Rng) -> u64 {
+    match r.below(8) {
+        0 => 1 << 63,
+        1 => u64::MAX,
+        2 => (1 << 63) + 1,
+        3 => u64::MAX - 1,
+        4 => (1u64 << 63) | (1u64 << r.below(63)),
+        5 => !(1u64 << r.below(63)),
+        _ => r.u64() | (1 << 63),
+    }
+}
+
+fn norm128(r: &mut Rng) -> u128 {
+    match r.below(8) {
+        0 => 1 << 127,
+        1 => u128::MAX,
+        2 => (1 << 127) + 1,
+        3 => u128::join_hi(norm64(r), 0),
+        4 => u128::join_hi(norm64(r), u64::MAX),
+        _ => alpha_u128(r) | (1 << 127),
+    }
+}
+
+trait JoinHi {
+    fn join_hi(hi: u64, lo: u64) -> u128;
+}
+impl JoinHi for u128 {
+    fn join_hi(hi: u64, lo: u64) -> u128 {
+        (u128::from(hi) << 64) | u128::from(lo)
+    }
+}
+
+fn workload(m: &mut Mon) {
+    // ---- reciprocal: every table row (first / last / middle d of the row), anchors
+    for row in 0..256u64 {
+        let first = (256 + row) << 55;
+        let last = first | ((1u64 << 55) - 1);
+        for dv in [first, first + 1, last, last - 1, first | (1 << 54), first | 0x2a_aaaa_aaaa_aaaa] {
+            if !m.keep() {
+                continue;
+            }
+            m.case("reciprocal", 64, vec![Arg::N(u128::from(dv))]);
+            for lo in [0u64, 1, u64::MAX, 1 << 63] {
+                m.case("reciprocal_2", 128, vec![Arg::N(u128::join_hi(dv, lo))]);
+            }
+        }
+    }
+    if !m.is_light() {
+        m.mark_exhaustive("all 256 reciprocal table rows (first, last and interior d of each row)");
+    }
+    for dv in [1u128 << 127, u128::MAX, (1 << 127) + 1, u128::MAX - 1, 0xd555_5555_5555_5555_5555_5555_5555_5555,
+               170141183460488574554024512018559533057] {
+        m.case("reciprocal_2", 128, vec![Arg::N(dv)]);
+    }
+    let mut r = m.stream("c14.recip", 0);
+    for i in 0..m.iters(60_000) {
+        if i % 1024 == 0 && m.time_up() {
+            break;
+        }
+        m.case("reciprocal", 64, vec![Arg::N(u128::from(norm64(&mut r)))]);
+        m.case("reciprocal_2", 128, vec![Arg::N(norm128(&mut r))]);
+    }
+    // ---- div_2x1 / div_3x2 : alphabet grid that reaches both adjustments
+    let mut r = m.stream("c14.small", 0);
+    for i in 0..m.iters(150_000) {
+        if i % 1024 == 0 && m.time_up() {
+            break;
+        }
+        let dv = norm64(&mut r);
+        // u = q*d + rem with q, rem hostile, or hostile high word below d
+        let u = match r.below(3) {
+            0 => {
+                let q = gen::alpha_limb(&mut r);
+                let rem = gen::alpha_limb(&mut r) % dv;
+                u128::from(q) * u128::from(dv) + u128::from(rem)
+            }
+            1 => u128::join_hi(gen::alpha_limb(&mut r) % dv, gen::alpha_limb(&mut r)),
+            _ => u128::join_hi(dv - 1, gen::alpha_limb(&mut r)),
+        };
+        m.case("div_2x1", 128, vec![Arg::N(u), Arg::N(u128::from(dv))]);
+        let d2 = norm128(&mut r);
+        let (u21, u0) = match r.below(4) {
+            0 => (alpha_u128(&mut r) % d2, gen::alpha_limb(&mut r)),
+            1 => (d2 - 1, gen::alpha_limb(&mut r)),
+            2 => {
+                // n = q*d + rem
+                let q = gen::alpha_limb(&mut r);
+                let rem = alpha_u128(&mut r) % d2;
+                let n = BigUint::from(q) * BigUint::from(d2) + BigUint::from(rem);
+                let lo = (&n % big::p2(64)).to_u64().unwrap();
+                ((n >> 64usize).to_u128().unwrap(), lo)
+            }
+            _ => {
+                // n = q*d - delta: estimate one too large
+                let q = gen::alpha_limb(&mut r).max(1);
+                let n = BigUint::from(q) * BigUint::from(d2) - BigUint::from(gen::alpha_limb(&mut r) % 8 + 1);
+                let lo = (&n % big::p2(64)).to_u64().unwrap();
+                ((n >> 64usize).to_u128().unwrap(), lo)
+            }
+        };
+        if u21 < d2 {
+            m.case("div_3x2", 192, vec![Arg::N(u21), Arg::N(u128::from(u0)), Arg::N(d2)]);
+        }
+    }
+    // ---- div (any lengths 1..=12 with padding), div_nxm, div_nxm_normalized, nx1, nx2
+    let mut r = m.stream("c14.slices", 0);
+    let reps = m.iters(6);
+    for nl in 1..=12usize {
+        for dl in 1..=12usize {
+            for topbits in [1usize, 2, 31, 32, 33, 63, 64] {
+                if !m.keep() {
+                    continue;
+                }
+                for recipe in 0..8 {
+                    for _ in 0..reps {
+                        slices_case(m, &mut r, nl, dl, topbits, recipe);
+                    }
+                }
+            }
+        }
+        if m.time_up() {
+            break;
+        }
+    }
+    if !m.is_light() {
+        m.mark_exhaustive("every (numerator length, divisor length) combination in 1..=12 x 1..=12 for algorithms::div (contents sampled)");
+    }
+    let mut r = m.stream("c14.random", 0);
+    for i in 0..m.iters(120_000) {
+        if i % 512 == 0 && m.time_up() {
+            break;
+        }
+        let nl = r.range(1, 12);
+        let dl = r.range(1, 12);
+        let topbits = r.range(1, 64);
+        let recipe = r.below(8);
+        slices_case(m, &mut r, nl, dl, topbits, recipe);
+    }
+    // zero divisor must panic (documented)
+    for dl in 1..=3 {
+        m.case("div", 64, vec![au(&[1, 2]), au(&vec![0; dl])]);
+    }
+}
+
+/// One family of slice-level cases from a (numerator length, divisor length,
+/// divisor top-limb bits, recipe) tuple. `nl`/`dl` are the significant lengths;
+/// extra zero padding is added at random for `div`.
+fn slices_case(m: &mut Mon, r: &mut Rng, nl: usize, dl: usize, topbits: usize, recipe: usize) {
+    let dv = divgen::divisor(r, dl, topbits);
+    let bd = big::big(&dv);
+    let bn = divgen::numerator(r, &bd, 64 * nl, recipe);
+    let nv = pad(trimmed(&bn), if r.bool() { nl } else { 0 }.max(1));
+    // generic entry point: random extra zero padding on both
+    let npad = nv.len() + if r.chance(1, 3) { r.range(1, 3) } else { 0 };
+    let dpad = dv.len() + if r.chance(1, 3) { r.range(1, 3) } else { 0 };
+    m.case("div", 64 * nl, vec![au(&pad(nv.clone(), npad.min(14))), au(&pad(dv.clone(), dpad.min(14)))]);
+    // un-normalised Knuth: both >= 3 limbs, numerator at least as long
+    if dl >= 3 {
+        let n = pad(nv.clone(), nl.max(dl));
+        m.case("div_nxm", 64 * n.len(), vec![au(&n), au(&dv)]);
+    }
+    // normalised Knuth: divisor top bit set, >= 2 limbs, numerator top dl limbs < divisor
+    if dl >= 2 && topbits == 64 {
+        let total = nl.max(dl + 1);
+        let mut n = pad(nv.clone(), total);
+        n.truncate(total);
+        let top = big::big(&n[total - dl..]);
+        if top < bd {
+            m.case("div_nxm_normalized", 64 * total, vec![au(&n), au(&dv)]);
+        } else {
+            // make room: one more zero limb on top
+            n.push(0);
+            m.case("div_nxm_normalized", 64 * (total + 1), vec![au(&n), au(&dv)]);
+        }
+        if r.chance(1, 8) {
+            // equal lengths with numerator < divisor: quotient has zero limbs
+            let small = big::limbs(&(&bn % &bd), dl);
+            m.case("div_nxm_normalized", 64 * dl, vec![au(&small), au(&dv)]);
+        }
+    }
+    // n x 1 and n x 2
+    let ntrim = trimmed(&bn);
+    if dl == 1 {
+        if !ntrim.is_empty() {
+            m.case("div_nx1", 64 * ntrim.len(), vec![au(&ntrim), Arg::N(u128::from(dv[0]))]);
+        }
+        if topbits == 64 {
+            m.case("div_nx1_normalized", 64 * nv.len(), vec![au(&pad(nv.clone(), nl)), Arg::N(u128::from(dv[0]))]);
+        }
+    }
+    if dl == 2 {
+        let d2 = u128::join_hi(dv[1], dv[0]);
+        if !ntrim.is_empty() {
+            m.case("div_nx2", 64 * ntrim.len(), vec![au(&ntrim), Arg::N(d2)]);
+        }
+        if topbits == 64 {
+            m.case("div_nx2_normalized", 64 * nv.len(), vec![au(&pad(nv.clone(), nl)), Arg::N(d2)]);
+        }
+    }
+    let _ = BigUint::one();
+}
+
+fn main() {
+    let mut m = Mon::new("C14", dispatch);
+    m.use_hooks = true;
+    if !m.replay_if_requested() {
+        workload(&mut m);
+    }
+    m.finish();
+}
